@@ -83,6 +83,7 @@ type refEval struct {
 	escapedCalls int // calls of a closure whose creating activation has already returned
 	shadowUses   int // variable uses where the name is bound in >= 2 frames on the chain
 	maxDepth     int // deepest call nesting reached
+	caught       int // failures contained by the host function try
 }
 
 func (r *refEval) curAct() int {
@@ -98,7 +99,7 @@ func newRef(budget int) *refEval {
 
 var refPrims = map[string]bool{"+": true, "-": true, "*": true, "/": true, "mod": true, "<": true, ">": true, "<=": true, ">=": true, "==": true, "!=": true,
 	"not": true, "concat": true, "append": true, "len": true, "first": true, "rest": true, "second": true, "cons": true, "list": true, "array": true, "aget": true, "aset": true,
-	"hget": true, "hset": true, "hdel": true, "keys": true, "map": true, "apply": true, "str": true, "force": true, "substitute": true, "hash": true, "func?": true}
+	"hget": true, "hset": true, "hdel": true, "keys": true, "map": true, "apply": true, "str": true, "force": true, "substitute": true, "hash": true, "func?": true, "try": true}
 
 func rtruthy(v rval) bool {
 	switch x := v.(type) {
@@ -1027,6 +1028,27 @@ func (r *refEval) applyPrim(name string, args []rval) (rval, error) {
 			return r.applyValue(args[0], nil) // nil is the empty list
 		}
 		return nil, &rerr{"type", "apply"}
+	case "try":
+		// host function that calls back into the evaluator and contains the failure
+		if err := argn(1); err != nil {
+			return nil, err
+		}
+		v, err := r.applyValue(args[0], nil)
+		if err != nil {
+			if err == errRefBudget {
+				return nil, err
+			}
+			if re, ok := err.(*rerr); ok && re.kind == "other" {
+				return nil, err
+			}
+			if _, isCtl := err.(*rctl); isCtl {
+				return nil, &rerr{"other", "break/continue through try"}
+			}
+			r.caught++
+			r.trace = append(r.trace, "caught")
+			return int64(-1), nil
+		}
+		return v, nil
 	case "func?":
 		if err := argn(1); err != nil {
 			return nil, err
